@@ -18,7 +18,7 @@ def run(tier):
         'expansion call is under a test against the capacity it enlarges, post-checks are `count >= cap`, pre-checks `need > cap` in a '
         'loop (?expand may grant less than asked), the result is tested and returned. Structure of ?expand: the moved block starts at '
         'expanders[type+1].mem and Glu / expanders of every type behind the grown one advance by the same `extra`; under malloc the old '
-        'contents are copied with the right element width before the old block is released; user_bcopy covers every byte. R9 siblings. '
+        'contents are copied with the right element width before the old block is released; user_bcopy covers every byte; copy_mem_int / copy_mem_<type> move `howmany` elements of their own element type. R9 siblings. '
         'These are necessary for "factors are bit-for-bit independent of how storage was obtained": breaking one gives different (wrong) '
         'factors as soon as one expansion happens in the affected mode. Bit-for-bit equality itself and mem_usage arithmetic: not decided.')
     cfgs = ['tested'] if tier == 'quick' else ['tested', 'idx64', 'cblas']
@@ -32,6 +32,7 @@ def run(tier):
         for p in _drv.PRECS:
             expand.run(chk, 'C07.D3', prog, p, cfgname)
         expand.bcopy_rule(chk, 'C07.D3', prog, cfgname)
+        expand.copy_helper_rule(chk, 'C07.D3', prog, cfgname)
         misc.glu_mirror_rule(chk, 'C07.mirror', prog, cfgname, floor=500)
         if r6_wspace.run(chk, 'R6', prog, cfgname) < 32:
             raise AnalysisBroken('C07: workspace allocator routines not found')
